@@ -43,15 +43,28 @@ type PubOptions struct {
 	// library's own DirectoryFileWriter meets ENAMETOOLONG at 255 bytes on
 	// every common file system). 0 = no limit. Not a library option.
 	NameLimit int `json:"name_limit,omitempty"`
+	// Spelling (C17): the visibility is handed to html.NewLivingVisibility in
+	// this spelling ("Hide", "HIDE ", "Placeholder"). The library may refuse
+	// it; if it accepts it, it has to act as the mode named by Visibility.
+	Spelling string `json:"spelling,omitempty"`
 	// staleDir: see PubVariant.StaleDir (set per variant, not part of the case)
 	staleDir bool
+	// fullName: see PubVariant.FullDisk
+	fullName string
+}
+
+func (o PubOptions) spelled() string {
+	if o.Spelling != "" {
+		return o.Spelling
+	}
+	return o.Visibility
 }
 
 func (o PubOptions) lib() *html.PublishShowOptions {
 	return &html.PublishShowOptions{
 		ShowIndividuals: o.Individuals, ShowPlaces: o.Places, ShowFamilies: o.Families,
 		ShowSurnames: o.Surnames, ShowSources: o.Sources, ShowStatistics: o.Statistics,
-		LivingVisibility: html.NewLivingVisibility(o.Visibility),
+		LivingVisibility: html.NewLivingVisibility(o.spelled()),
 	}
 }
 
@@ -86,6 +99,11 @@ type PubVariant struct {
 	// Republish: one Publisher publishes twice (to two writers); the second
 	// site is the one that is judged.
 	Republish bool `json:"republish,omitempty"`
+	// FullDisk (with RealWriter): one page of the site (chosen by the
+	// variant's seed) is a symbolic link to /dev/full in the output
+	// directory, so writing it fails inside the library's own writer the way
+	// a full disk fails: Publish has to return an error.
+	FullDisk bool `json:"full_disk,omitempty"`
 }
 
 type PubEdit struct {
@@ -309,6 +327,9 @@ func runPublishWith(t *testing.T, cr *CaseResult, prop string, doc *gedcom.Docum
 					}
 				}
 			}
+			if opts.fullName != "" {
+				os.Symlink("/dev/full", dir+"/"+opts.fullName)
+			}
 			perr = publisher.Publish(core.NewDirectoryFileWriter(dir), jobs)
 			return
 		}
@@ -325,6 +346,9 @@ func runPublishWith(t *testing.T, cr *CaseResult, prop string, doc *gedcom.Docum
 		// read the directory back as if it had been the recorded history
 		entries, _ := os.ReadDir(dir)
 		for i, e := range entries {
+			if e.Type()&os.ModeSymlink != 0 {
+				continue // the link to /dev/full: reading it never ends
+			}
 			data, err := os.ReadFile(dir + "/" + e.Name())
 			if err == nil {
 				run.events = append(run.events, DiskEvent{Seq: i + 1, Name: e.Name(), Kind: "file", Data: data})
@@ -656,6 +680,25 @@ func hostileGraph(r *rand.Rand, tier string) *Graph {
 			f.Ptr = pick(r, hostilePtr) + "f" + f.Ptr
 		}
 	}
+	// people and places whose names only differ (or do not differ at all)
+	// after more than a hundred characters
+	if r.IntN(6) == 0 && len(g.People) >= 2 {
+		long := strings.Repeat("Maximiliana ", 11) + "/" + strings.Repeat("Wolfeschlegel", 2) + "/" // 160 bytes
+		a, b := g.People[0], g.People[len(g.People)-1]
+		a.Names = []string{long}
+		b.Names = []string{long}
+		if r.IntN(2) == 0 {
+			b.Names = []string{strings.Replace(long, "/Wolfeschlegel", "/Xolfeschlegel", 1)}
+		}
+		lp := strings.Repeat("Llanfairpwllgwyngyll ", 7)
+		for _, p := range []*Person{a, b} {
+			for i := range p.Events {
+				if p.Events[i].Place != "" {
+					p.Events[i].Place = lp + pick(r, []string{"North, Wales", "South, Wales"})
+				}
+			}
+		}
+	}
 	// place names that collapse to the same file key
 	if r.IntN(4) == 0 {
 		variants := pick(r, [][]string{
@@ -749,6 +792,7 @@ func genPublishCase(prop, tier string, r *rand.Rand) *Case {
 			} else {
 				v.RealWriter = true
 				v.StaleDir = r.IntN(2) == 0
+				v.FullDisk = !v.StaleDir && r.IntN(2) == 0
 				v.Jobs = pick(r, []int{2, 8, 16})
 			}
 		}
@@ -931,6 +975,33 @@ func runPublishCase(t *testing.T, c *Case) *CaseResult {
 				if v.StaleDir {
 					cr.count("history.published_into_before", 1)
 				}
+				if v.FullDisk && v.RealWriter && len(canon.files) > 0 {
+					if _, err := os.Stat("/dev/full"); err == nil {
+						var names []string
+						for n := range canon.files {
+							names = append(names, n)
+						}
+						sort.Strings(names)
+						o.fullName = names[int(v.Sim.Seed%uint64(len(names)))]
+					}
+				}
+				if o.fullName != "" {
+					o.staleDir = false
+					full, _ := runPublishWith(t, cr, prop, doc, o, lib, true, v.Jobs, v.Sim, c.Today, nil)
+					cr.count("disk.full_inside_the_directory_writer", 1)
+					cr.NonTrivial = true
+					switch {
+					case full.res.Outcome == "crash":
+						cr.violate(prop+"/fault", "publish panics when a write fails inside the directory writer (at "+topLibraryFrame(full.res.Crash.Stack)+")",
+							fmt.Sprintf("%s is a link to /dev/full (jobs=%d)\n%s\n%s", o.fullName, v.Jobs, full.res.Crash.Value, full.res.Crash.Stack))
+					case full.res.Outcome != "completed":
+						cr.violate(prop+"/fault", "publish does not return after a write failed inside the directory writer: "+full.res.Outcome, o.fullName)
+					case full.err == nil:
+						cr.violate(prop+"/fault", "a write that failed inside the directory writer (disk full) is reported as success",
+							fmt.Sprintf("%s is a link to /dev/full (jobs=%d) and Publish returned nil", o.fullName, v.Jobs))
+					}
+					continue
+				}
 				run, _ = runPublishWith(t, cr, prop, doc, o, lib, v.RealWriter, v.Jobs, v.Sim, c.Today, nil)
 			}
 			if v.RealWriter {
@@ -1037,6 +1108,42 @@ func runPublishCase(t *testing.T, c *Case) *CaseResult {
 			if run.lateWrites > 0 {
 				cr.violate(prop+"/termination", "files are written after Publish has returned",
 					fmt.Sprintf("WriteFile call %d failed (jobs=%d sticky=%v): %d WriteFile calls started after Publish had returned", k, jobs, f.Sticky, run.lateWrites))
+			}
+			if !f.Sticky && k%3 == 1 {
+				// the same Publisher once more after the failed attempt, the
+				// disk working again: the site, or an error
+				doc, derr := decode(c.Docs[0])
+				if derr == nil {
+					labels := map[unsafe.Pointer]int{}
+					labelDoc(labels, doc, 0)
+					rs := sim
+					rs.Labels = labels
+					rs.Today = parseToday(c.Today)
+					if cfg.Options.MaxLivingAgeZero {
+						doc.MaxLivingAge = 0
+					}
+					bad, good := &Disk{faults: []DiskFault{{Kind: "fail_call", K: k}}, returnedAt: -1}, &Disk{returnedAt: -1}
+					var err1, err2 error
+					res, _ := runSim(t, cr, prop, rs, func() {
+						p := html.NewPublisher(doc, cfg.Options.lib())
+						err1 = p.Publish(bad, jobs)
+						err2 = p.Publish(good, jobs)
+					})
+					cr.Runs++
+					cr.count("history.retry_on_same_publisher", 1)
+					if res.Outcome == "completed" && err1 != nil && err2 == nil {
+						files := map[string][]byte{}
+						for _, e := range good.events {
+							if e.Err == "" {
+								files[e.Name] = e.Data
+							}
+						}
+						if d := diffFiles(canon.files, files, canon.collided()); d != "" {
+							cr.violate(prop+"/fault", "publishing again with the same Publisher after a writer failure reports success but does not write the site",
+								fmt.Sprintf("WriteFile call %d failed in the first attempt (jobs=%d); the second attempt returned nil: %s", k, jobs, clip(d, 400)))
+						}
+					}
+				}
 			}
 			switch run.res.Outcome {
 			case "completed":
